@@ -9,6 +9,9 @@ use std::time::Instant;
 
 pub const VERIF_DIR: &str = "/verif";
 
+/// Where evidence and replays are written (normally /verif; VERIF_OUT_DIR redirects scratch runs).
+pub fn out_dir() -> String { std::env::var("VERIF_OUT_DIR").unwrap_or_else(|_| VERIF_DIR.to_string()) }
+
 pub struct Violation {
     pub signature: String,
     pub what: String,
@@ -119,15 +122,15 @@ impl Ctx {
     pub fn finish(&self, evaluations: u64, rule: &str, assumptions: &[&str], gates: &[(&str, u64)]) -> i32 {
         let viols = self.violations.lock().unwrap();
         let known = self.known_hit.lock().unwrap();
-        std::fs::create_dir_all(format!("{}/replays", VERIF_DIR)).ok();
-        std::fs::create_dir_all(format!("{}/evidence", VERIF_DIR)).ok();
+        std::fs::create_dir_all(format!("{}/replays", out_dir())).ok();
+        std::fs::create_dir_all(format!("{}/evidence", out_dir())).ok();
         for (sig, n) in known.iter() {
             let what = self.known_open.iter().find(|(s, _)| s == sig).map(|x| x.1.clone()).unwrap_or_default();
             println!("KNOWN-FINDING: property={} {} [{}; seen {}x in this run]", self.property, what, sig, n);
         }
         let mut replay_paths = vec![];
         for (i, v) in viols.iter().enumerate() {
-            let path = format!("{}/replays/{}-{}-{}-{}.json", VERIF_DIR, self.property, self.tier, self.seed, i);
+            let path = format!("{}/replays/{}-{}-{}-{}.json", out_dir(), self.property, self.tier, self.seed, i);
             let mut doc = json!({ "property": self.property, "tier": self.tier, "seed": self.seed, "signature": v.signature, "what": v.what });
             if let (Value::Object(d), Value::Object(r)) = (&mut doc, &v.replay) { for (k, val) in r { d.insert(k.clone(), val.clone()); } }
             std::fs::write(&path, serde_json::to_string_pretty(&doc).unwrap()).ok();
@@ -165,7 +168,7 @@ impl Ctx {
             "coverage": Value::Object(coverage), "assumptions": assumptions, "wall_s": self.elapsed(),
             "violations": viols.len(),
         });
-        let epath = format!("{}/evidence/{}.json", VERIF_DIR, self.property);
+        let epath = format!("{}/evidence/{}.json", out_dir(), self.property);
         if let Err(e) = std::fs::write(&epath, serde_json::to_string_pretty(&ev).unwrap()) {
             eprintln!("harness error: cannot write {}: {}", epath, e);
             return 2;
@@ -227,13 +230,14 @@ pub fn merge_parts(id: &str, dir: &str, tier: &str, seed: u64) -> i32 {
     let mut fingerprints = HashSet::new();
     let mut verdicts = vec![]; let mut exhaustive_all = true;
     let mut rule = String::new(); let mut assumptions = Value::Null;
+    let mut sanitizer: Map<String, Value> = Map::new();
     for p in &parts {
         let c = &p["coverage"];
         evaluations += c["evaluations"].as_u64().unwrap_or(0);
         distinct += c["distinct_nontrivial"].as_u64().unwrap_or(0);
         violations += p["violations"].as_i64().unwrap_or(0);
         wall += p["wall_s"].as_f64().unwrap_or(0.0);
-        if let Some(o) = c["observed"].as_object() { for (k, v) in o { let e = observed.entry(k.clone()).or_insert(0); if k.starts_with("highest") || k.starts_with("deepest") || k.starts_with("max_") { *e = (*e).max(v.as_u64().unwrap_or(0)); } else { *e += v.as_u64().unwrap_or(0); } } }
+        if let Some(o) = c["observed"].as_object() { for (k, v) in o { let e = observed.entry(k.clone()).or_insert(0); if k.starts_with("highest") || k.starts_with("deepest") || k.starts_with("max_") || k.starts_with("asan_") || k.starts_with("tsan_") { *e = (*e).max(v.as_u64().unwrap_or(0)); } else { *e += v.as_u64().unwrap_or(0); } } }
         if let Some(s) = c["samples"].as_array() { for x in s.iter().take(3) { samples.push(x.clone()); } }
         if let Some(r) = c["replays"].as_array() { replays.extend(r.iter().cloned()); }
         let fp = c["draw_fingerprint"].as_str().unwrap_or("?").to_string();
@@ -243,6 +247,7 @@ pub fn merge_parts(id: &str, dir: &str, tier: &str, seed: u64) -> i32 {
         verdicts.push(c["verdict"].as_str().unwrap_or("?").to_string());
         rule = c["rule"].as_str().unwrap_or("").to_string();
         assumptions = p["assumptions"].clone();
+        for k in ["address_sanitizer", "thread_sanitizer"] { if !c[k].is_null() { sanitizer.insert(k.to_string(), c[k].clone()); } }
     }
     let verdict = if verdicts.iter().any(|v| v == "violated") { "violated" } else if verdicts.iter().any(|v| v != "held") { "inconclusive" } else { "held" };
     let distinct_draws = fingerprints.len();
@@ -256,7 +261,9 @@ pub fn merge_parts(id: &str, dir: &str, tier: &str, seed: u64) -> i32 {
         },
         "assumptions": assumptions, "wall_s": wall, "violations": violations,
     });
-    let epath = format!("{}/evidence/{}.json", VERIF_DIR, id);
+    let mut ev = ev;
+    for (k, v) in sanitizer { ev["coverage"][k] = v; }
+    let epath = format!("{}/evidence/{}.json", out_dir(), id);
     if std::fs::write(&epath, serde_json::to_string_pretty(&ev).unwrap()).is_err() { eprintln!("harness error: cannot write {}", epath); return 2; }
     println!("{} {} tier={} seed={} draws={} distinct_draws={} evaluations={} violations={}", id, verdict.to_uppercase(), tier, seed, parts.len(), distinct_draws, evaluations, violations);
     if parts.len() > 1 && distinct_draws < parts.len() {
